@@ -22,13 +22,64 @@ Proof. exact suitable_bound. Qed.
 Print Assumptions C15_suitable_bound.
 
 (* ---- bound_Inv is preserved by every operation (span reuse, fresh segment, page free, page /
-   segment abandon, thread exit, heap delete, reclaim-on-free, try_reclaim, reclaim_all, collect,
-   manage) and hence holds in every history ---- *)
+   segment abandon, coalescing, block free / alloc, thread exit, heap delete, reclaim-on-free,
+   try_reclaim, reclaim_all, collect, manage) and hence holds in every history ---- *)
 
 Theorem C15_bound_inv_preserved_partial : forall st o,
   tags_uniform st -> Inv st -> Inv (step st o).
 Proof. exact step_Inv_partial. Qed.
 Print Assumptions C15_bound_inv_preserved_partial.
+
+(* Strengthened forms (every heap tag allowed).  The hypothesis is reduced to `tag_safe` of the one heap that
+   adopts in this step; the 13 operations that are not adoptions (span reuse, fresh segment, page free /
+   abandon, coalescing, block free / alloc, thread exit, heap new / delete, collect, manage) preserve Inv
+   unconditionally, with tagged heaps present. *)
+Theorem C15_bound_inv_preserved_adopter_partial : forall st o,
+  (forall hid h, op_adopter o = Some hid -> find_heap st hid = Some h -> tag_safe (st_heaps st) h) ->
+  Inv st -> Inv (step st o).
+Proof. exact step_Inv_adopter. Qed.
+Print Assumptions C15_bound_inv_preserved_adopter_partial.
+
+Theorem C15_bound_inv_preserved_non_adopting : forall st o, op_adopter o = None -> Inv st -> Inv (step st o).
+Proof. exact step_Inv_non_adopting. Qed.
+Print Assumptions C15_bound_inv_preserved_non_adopting.
+
+Theorem C15_bound_inv_preserved_tag_safe_partial : forall st o, heaps_tag_safe st -> Inv st -> Inv (step st o).
+Proof. exact step_Inv_tag_safe. Qed.
+Print Assumptions C15_bound_inv_preserved_tag_safe_partial.
+
+(* ... and `tag_safe` cannot be weakened: whenever _mi_heap_by_tag can return, for the adopting heap h, a
+   heap t of another arena, reclaim-on-free by h of one abandoned segment that is suitable for h breaks
+   bound_Inv.  The gap between the `_partial` theorems and `C15_full_bound_inv_preserved` is exactly the
+   known finding impl:reclaim-by-tag-exclusive. *)
+Theorem C15_tag_safe_is_necessary : forall heaps h tag t,
+  heap_by_tag heaps h tag = Some t -> h_arena t <> h_arena h ->
+  heap_memid_is_suitable h (unsafe_memid h) = true /\
+  bound_Inv (unsafe_state heaps h tag) /\
+  ~ bound_Inv (attempt_reclaim (unsafe_state heaps h tag) h 1 true true).
+Proof. exact tag_unsafe_breaks. Qed.
+Print Assumptions C15_tag_safe_is_necessary.
+
+Theorem C15_tag_safe_b_sound : forall heaps h, tag_safe_b heaps h = true -> tag_safe heaps h.
+Proof. exact tag_safe_b_sound. Qed.
+Print Assumptions C15_tag_safe_b_sound.
+
+(* histories with arbitrary heap tags in which every adoption is made by a heap that is tag_safe at that moment (the
+   untagged histories of the `_partial` theorems below are a special case: `C15_untagged_histories_are_adopter_safe`) *)
+Theorem C15_bound_inv_history_adopter_partial : forall ops, adopters_safe init_state ops ->
+  arenas_wf (st_arenas (run init_state ops)) /\ bound_Inv (run init_state ops) /\ placed_Inv (run init_state ops).
+Proof. exact reachable_Inv_adopter. Qed.
+Print Assumptions C15_bound_inv_history_adopter_partial.
+
+Theorem C15_exclusive_stays_private_history_adopter_partial : forall ops A,
+  adopters_safe init_state ops -> exclusive_leak_b (run init_state ops) A = false.
+Proof. exact exclusive_stays_private_history_adopter. Qed.
+Print Assumptions C15_exclusive_stays_private_history_adopter_partial.
+
+Theorem C15_untagged_histories_are_adopter_safe : forall ops st,
+  forallb op_untagged ops = true -> tags_uniform st -> adopters_safe st ops.
+Proof. exact untagged_adopters_safe. Qed.
+Print Assumptions C15_untagged_histories_are_adopter_safe.
 
 Theorem C15_tags_uniform_preserved : forall st o, op_untagged o = true -> tags_uniform st -> tags_uniform (step st o).
 Proof. exact step_tags. Qed.
@@ -221,6 +272,20 @@ Example C15_example_reclaim_all_repaired :
   let st := step ex_state (OReclaimAll 1) in
   map s_owner (st_segs st) = [1; 0] /\ exclusive_leak_b st 1%Z = false /\ bound_inv_b st = true.
 Proof. exact ex_reclaim_all_repaired. Qed.
+
+(* a history with a tagged heap that satisfies the hypothesis of the adopter-based theorems: heap 6 =
+   mi_heap_new_ex(7, false, none) adopts the abandoned segment of the shared arena *)
+Example C15_example_tagged_adopter_safe :
+  let st := run init_state ex_safe_ops in
+  let h6 := mkHeap 6 1 0%Z 7 false in
+  find_heap st 6 = Some h6 /\ tag_safe_b (st_heaps st) h6 = true /\ tags_uniform_b st = false /\
+  map s_owner (st_segs (step st ex_safe_step)) = [1; 0] /\
+  map (fun s => map (fun p => match p_heap p with Some h => h_id h | None => 0 end) (s_pages s)) (st_segs (step st ex_safe_step)) = [[1]; [0]] /\
+  bound_inv_b (step st ex_safe_step) = true /\ exclusive_leak_b (step st ex_safe_step) 1%Z = false.
+Proof. exact ex_tagged_adopter_safe. Qed.
+
+Example C15_example_adopters_safe_history : adopters_safe init_state (ex_safe_ops ++ [ex_safe_step]).
+Proof. exact ex_safe_adopters. Qed.
 
 (* documentation of the repaired defect (fix 027d323): the old _mi_abandoned_reclaim_all, without
    the suitability test, breaks exclusive_stays_private on the same state *)
